@@ -88,7 +88,7 @@ def main(tier):
     items, desc = lp_items("C02", tier, seed)
     work = sweep.make_work(judge, conform_rate=(97 if tier == "quick" else 41),
                            seed=seed)
-    tally = pool.run(work, items, chunksize=4)
+    tally = pool.run(work, items, chunksize=1)
     from .. import interleave
     it = sweep.interleave_items(tier, INTERLEAVE_OPTS)
     tally.merge(pool.run(interleave.work_lp(judge, PID), it, chunksize=8))
